@@ -114,3 +114,20 @@ pub mod broadcast {
         ensures r.0.log@ == Seq::<PeerEvent>::empty(), r.1.start@ == 0 { unimplemented!() }
 }
 '''
+
+# std combinators that have no vstd specification in this Verus build (assumed; they are pure, total and tiny)
+STD_SPECS = '''
+// ---------- assumed specifications of std combinators missing from vstd ----------
+pub assume_specification<T, E>[core::result::Result::<T, E>::unwrap_or](r: core::result::Result<T, E>, default: T) -> (out: T)
+    ensures out == (match r { Ok(v) => v, Err(_) => default });
+pub assume_specification<T, E, F>[core::result::Result::<T, E>::or::<F>](r: core::result::Result<T, E>, res: core::result::Result<T, F>) -> (out: core::result::Result<T, F>)
+    ensures out == (match r { Ok(v) => Ok::<T, F>(v), Err(_) => res });
+pub assume_specification<T, E, U>[core::result::Result::<T, E>::and::<U>](r: core::result::Result<T, E>, res: core::result::Result<U, E>) -> (out: core::result::Result<U, E>)
+    ensures out == (match r { Ok(_) => res, Err(e) => Err::<U, E>(e) });
+pub assume_specification<T>[core::option::Option::<T>::or](o: Option<T>, optb: Option<T>) -> (out: Option<T>)
+    ensures out == (match o { Some(v) => Some(v), None => optb });
+pub assume_specification<T>[core::option::Option::<T>::xor](o: Option<T>, optb: Option<T>) -> (out: Option<T>)
+    ensures out == (match (o, optb) { (Some(a), None) => Some(a), (None, Some(b)) => Some(b), _ => None });
+pub assume_specification<T, U>[core::option::Option::<T>::and::<U>](o: Option<T>, optb: Option<U>) -> (out: Option<U>)
+    ensures out == (match o { Some(_) => optb, None => None::<U> });
+'''
